@@ -4,7 +4,7 @@
    Types: 0 bool, 1 char, 2 int, 3 unsigned, 4 long, 5 unsigned long, 6 long long, 7 unsigned long long, 8.. enums (LP64). *)
 Require Import V.Lib.Base V.Lib.Dec V.Gen.Consts_C16.
 Require Import V.C16.Model V.C16.Spec V.C16.ProofsBasic V.C16.ProofsRT V.C16.ProofsAcc V.C16.ProofsEnum V.C16.ProofsComp.
-Require Import V.C16.ProofsCompElems V.C16.ProofsCompAcc V.C16.ProofsAppend.
+Require Import V.C16.ProofsCompElems V.C16.ProofsCompAcc V.C16.ProofsAppend V.C16.ProofsEnumGen.
 Local Open Scope Z_scope.
 
 (* ================= (1) round trip, ALL values of every integer type ================= *)
@@ -71,11 +71,14 @@ Proof. exact cast_fails_with_rest. Qed.
 Print Assumptions c16_whole_string_fails_with_rest.
 
 (* ================= (3) enumerations: finite sweep over the generated classes ================= *)
-(* For every class the translator found (Head_t Body_t Value_t Heuristic_t Directive_t Theory_t Tuple_t Clause_t Statistics_t)
-   and every (key, value) that find_kv reads out of the stringified macro arguments: the value prints as its key; the key,
-   the key followed by ",x" and the decimal numeral of the value read back as the value (clean and stale errno); isValid holds. *)
+(* For every class the translator found (the library's Head_t Body_t Value_t Heuristic_t Directive_t Theory_t Tuple_t Clause_t Statistics_t
+   and the six enumerations harness/h_c16.cpp declares with the public macros: Level_t Sparse_t Neg_t Off_t Unord_t One_t)
+   and every (key, value) that find_kv reads out of the stringified macro arguments: the value prints as a key of that value - as this
+   key unless another enumerator has the same value (Unord_t: T = R = 2 prints as "R"); the key, the key followed by ",x" and the
+   decimal numeral of the value read back as the value (clean and stale errno); isValid holds. *)
 Theorem c16_enum_roundtrip : forall t k v e, In t enum_classes -> In (k, v) (ec_entries (ec_of t)) ->
-  print_enum (ec_of t) v = k /\
+  In (print_enum (ec_of t) v, v) (ec_entries (ec_of t)) /\
+  ((forall k', In (k', v) (ec_entries (ec_of t)) -> k' = k) -> print_enum (ec_of t) v = k) /\
   parse_enum (ec_of t) e k = mkp true v (length k) e /\
   parse_enum (ec_of t) e (k ++ [def_sep; 120]) = mkp true v (length k) e /\
   parse_enum (ec_of t) e (print_signed v) = mkp true v (length (print_signed v)) e /\
@@ -298,8 +301,8 @@ Proof.
   split; [left; split; [unfold int_ty; lia | vm_compute; split; discriminate]|].
   split; [right; auto|]. vm_compute. split; reflexivity.
 Qed.
-Example nv_enum_classes : length enum_classes = 9%nat /\
-  map (fun t => length (ec_entries (ec_of t))) enum_classes = [2; 3; 4; 6; 11; 7; 3; 4; 4]%nat.
+Example nv_enum_classes : length enum_classes = 15%nat /\
+  map (fun t => length (ec_entries (ec_of t))) enum_classes = [2; 3; 4; 6; 11; 7; 3; 4; 4; 3; 4; 3; 3; 5; 1]%nat.
 Proof. vm_compute. split; reflexivity. Qed.
 (* char / enum elements: Heuristic_t::Init (type 11, value 3) and Tuple_t::Bracket (14, -3) are constants; a pair of a char and
    an enum constant, a list of chars with ',' '[' ')' and backslash in non-first positions, a list of enum constants *)
@@ -405,3 +408,95 @@ Proof.
     unfold c_INT_MIN, c_INT_MAX. lia. }
   split; [apply E; lia|]. split; [constructor; [apply E; lia|]; constructor; [apply E; lia | constructor]|]. split; [intros [H _]; discriminate H | discriminate].
 Qed.
+
+(* ================= (8) enumerations: EVERY descriptor (rep, min, max), not only the generated classes ================= *)
+(* An EnumClass is (stringified macro arguments, min, max): min is the fixed 0 of POTASSCO_ENUM_CONSTANTS or the caller's minVal of
+   POTASSCO_ENUM_CONSTANTS_T - it need NOT be a constant (Low = 1, Mid = 2, High = 3 has min 0) - and max is the last enumerator.
+   is_const ec v: some enumerator that find_kv reads out of rep has the value v. *)
+(* EnumClass::isValid(v) = within the bounds AND in the table - the bounds alone make nothing valid *)
+Theorem c16_enum_valid_iff : forall ec v, ec_valid ec v = true <-> (ec_min ec <= v <= ec_max ec /\ is_const ec v).
+Proof. exact ec_valid_iff. Qed.
+Print Assumptions c16_enum_valid_iff.
+
+(* Numbers.  For EVERY descriptor and EVERY string x that xconvert(const char*, int&) accepts (c16_accepts_only: its consumed text is
+   a numeral or imax / imin denoting exactly n = p_val (parse_signed ..), in any base, with any sign / white space / zero padding):
+   the enumeration accepts x iff n lies within [min, max] and is a constant; then it delivers exactly n with the same end position
+   and errno; otherwise it consumes nothing (it does NOT fall back to the key look-up). *)
+Theorem c16_enum_number_accepted_iff : forall ec e x, p_ok (parse_signed e x int_min int_max) = true ->
+  let n := parse_signed e x int_min int_max in
+  (p_ok (parse_enum ec e x) = true <-> (ec_min ec <= p_val n <= ec_max ec /\ is_const ec (p_val n))) /\
+  (p_ok (parse_enum ec e x) = true -> parse_enum ec e x = n) /\
+  (p_ok (parse_enum ec e x) = false -> parse_enum ec e x = pfail (p_err n)).
+Proof. exact enum_number_iff. Qed.
+Print Assumptions c16_enum_number_accepted_iff.
+
+(* Well-formed descriptors (ec_wf): every key is a name (non-empty; does not start with white space, sign, digit, nor with imax / imin),
+   keys pairwise different, every constant within [min, max], the bounds are ints - what C++ and the macros guarantee when min <= every
+   enumerator <= the last one.  For these: a number is accepted iff it is a constant ... *)
+Theorem c16_enum_number_accepted_iff_wf : forall ec e x, ec_wf ec -> p_ok (parse_signed e x int_min int_max) = true ->
+  (p_ok (parse_enum ec e x) = true <-> is_const ec (p_val (parse_signed e x int_min int_max))).
+Proof. exact enum_number_iff_wf. Qed.
+Print Assumptions c16_enum_number_accepted_iff_wf.
+
+(* ... and EVERY constant round-trips: it is written as a key of that value; this key - alone (whole string), or in front of ' ' ',' '='
+   (prefix conversion, element of a pair / list) - reads back as v with the end position right behind it and errno untouched; so does
+   the decimal numeral of v, alone or in front of any byte that is no letter or digit; isValid(v) holds.  Both errno states. *)
+Theorem c16_enum_roundtrip_every_descriptor : forall ec v e, ec_wf ec -> is_const ec v ->
+  In (print_enum ec v, v) (ec_entries ec) /\
+  (forall rest, key_end rest -> parse_enum ec e (print_enum ec v ++ rest) = mkp true v (length (print_enum ec v)) e) /\
+  (forall rest, nonalnum rest -> exists e', parse_enum ec e (print_signed v ++ rest) = mkp true v (length (print_signed v)) e') /\
+  ec_valid ec v = true.
+Proof. exact enum_roundtrip_gen. Qed.
+Print Assumptions c16_enum_roundtrip_every_descriptor.
+
+(* all fifteen generated classes (the library's nine and the harness's six) are well-formed *)
+Theorem c16_enum_classes_wf : forall t, In t enum_classes -> ec_wf (ec_of t).
+Proof. exact classes_wf. Qed.
+Print Assumptions c16_enum_classes_wf.
+
+(* non-vacuity.  Level_t (code 17: "Low = 1, Mid = 2, High = 3", min 0, max 3): 0 lies within the bounds and is no constant - it is
+   not valid, is rejected in every spelling ("0" "00" "0x0" "+0" " 0"), as a prefix ("0,Mid": nothing consumed), inside a pair
+   ("0,5" as pair<Level_t,int>) and inside lists ("Low,0", "0"); it is written as ""; the constants come back. *)
+Example nv_enum_min_not_constant :
+  find_enum 17 enum_classes = Some (mkec rep_Level_t 0 3) /\
+  ec_valid (mkec rep_Level_t 0 3) 0 = false /\ ~ is_const (mkec rep_Level_t 0 3) 0 /\ is_const (mkec rep_Level_t 0 3) 1 /\
+  forallb (fun x => negb (p_ok (parse_scalar 17 false x))) [[48]; [48; 48]; [48; 120; 48]; [43; 48]; [32; 48]; [48; 44; 77; 105; 100]] = true /\
+  parse_scalar 17 false [48; 44; 77; 105; 100] = pfail false /\
+  cast_pair 17 2 false [48; 44; 53] = None /\ cast_pair 2 17 false [53; 44; 48] = None /\
+  fst (cast_list 17 false [76; 111; 119; 44; 48]) = false /\ cast_list 17 false [48] = (false, []) /\
+  print_scalar 17 0 = [] /\ print_scalar 17 1 = [76; 111; 119] /\
+  cast_scalar 17 false [49] = Some 1 /\ cast_scalar 17 true [48; 120; 51] = Some 3 /\
+  cast_pair 17 2 false [77; 105; 100; 44; 53] = Some (2, 5) /\ cast_list 17 false [76; 111; 119; 44; 51] = (true, [1; 3]).
+Proof.
+  split; [vm_compute; reflexivity|]. split; [vm_compute; reflexivity|].
+  split; [intros H; assert (E : ec_valid (mkec rep_Level_t 0 3) 0 = true) by (apply ec_valid_iff; split; [cbn; lia | exact H]); vm_compute in E; discriminate E|].
+  split; [exists [76; 111; 119]; vm_compute; left; reflexivity|].
+  vm_compute. repeat split.
+Qed.
+(* the other shapes: holes (Sparse_t 18: 4 5 6 and 0 1), negative and positive minVal that is no constant (Neg_t 19: -5; Off_t 20: 2),
+   constants not in increasing order with an alias (Unord_t 21), a single constant (One_t 22) *)
+Example nv_enum_shapes :
+  map (fun v => ec_valid (mkec rep_Sparse_t 0 8) v) [0; 1; 2; 3; 4; 5; 6; 7; 8; 9] = [false; false; true; true; false; false; false; true; true; false] /\
+  map (fun v => ec_valid (mkec rep_Neg_t (-5) 2) v) [-6; -5; -4; -3; -2; -1; 0; 1; 2; 3] = [false; false; false; true; false; true; false; false; true; false] /\
+  map (fun v => ec_valid (mkec rep_Off_t 2 8) v) [1; 2; 3; 4; 5; 6; 7; 8; 9] = [false; false; false; true; true; false; false; true; false] /\
+  map (fun v => ec_valid (mkec rep_Unord_t 0 9) v) [0; 1; 2; 3; 4; 5; 6; 7; 8; 9; 10] = [false; false; true; true; false; true; false; false; false; true; false] /\
+  map (fun v => ec_valid (mkec rep_One_t 0 4) v) [-1; 0; 3; 4; 5] = [false; false; false; true; false] /\
+  print_scalar 21 2 = [82] /\ cast_scalar 21 false [84] = Some 2 /\ cast_scalar 19 false [45; 48; 51] = Some (-3) /\ cast_scalar 19 false [45; 53] = None.
+Proof. vm_compute. repeat split. Qed.
+(* a descriptor that is none of the generated classes satisfies ec_wf: "Lo = 3, Mid, Hi = 7" with min 1, max 7 (constants 3 4 7) *)
+Example nv_enum_descriptor :
+  let ec := mkec [76; 111; 32; 61; 32; 51; 44; 32; 77; 105; 100; 44; 32; 72; 105; 32; 61; 32; 55] 1 7 in
+  ec_wf ec /\ is_const ec 4 /\ ec_entries ec = [([76; 111], 3); ([77; 105; 100], 4); ([72; 105], 7)] /\
+  print_enum ec 4 = [77; 105; 100] /\ ec_valid ec 1 = false /\ ec_valid ec 5 = false.
+Proof.
+  cbn zeta. split; [apply ec_wfb_ok; vm_compute; reflexivity|]. split; [exists [77; 105; 100]; vm_compute; right; left; reflexivity|].
+  vm_compute. repeat split.
+Qed.
+(* the hypotheses of ec_wf are needed: an enumerator whose name starts with imax is not read back ("imaxLevel = 1");
+   a constant above max is not accepted as a number ("Hi = 9, Lo = 1": max = the LAST enumerator = 1) *)
+Example nv_enum_wf_needed :
+  (let ec := mkec [105; 109; 97; 120; 76; 32; 61; 32; 49] 0 1 in
+   print_enum ec 1 = [105; 109; 97; 120; 76] /\ p_ok (parse_enum ec false [105; 109; 97; 120; 76]) = false) /\
+  (let ec := mkec [72; 105; 32; 61; 32; 57; 44; 32; 76; 111; 32; 61; 32; 49] 0 1 in
+   ec_entries ec = [([72; 105], 9); ([76; 111], 1)] /\ p_ok (parse_enum ec false [57]) = false /\ parse_enum ec false [72; 105] = mkp true 9 2 false).
+Proof. vm_compute. repeat split. Qed.
